@@ -54,6 +54,11 @@ type C07Scenario struct {
 	// Deep: one publisher, 130-400 events, and a first invocation that lasts until (nearly) all of them are
 	// queued behind it: queues far longer than any fixed-size ring, table or batch an implementation might use
 	Deep bool `json:"deep,omitempty"`
+	// ReuseCtx: the context a context-aware handler was given (for a publish that is never cancelled) is kept, and
+	// later publishes with an odd id - by any publisher task - are made with that context instead of a fresh one:
+	// the follow-up pattern "publish the next step with the context I was called with". It is a live context
+	// like any other; whatever the bus stored in it for that one invocation must not leak into others.
+	ReuseCtx bool `json:"reuse_ctx,omitempty"`
 }
 
 func genC07(rt *rapid.T) core.Scenario {
@@ -85,6 +90,7 @@ func genC07(rt *rapid.T) core.Scenario {
 	}
 	sc.Yields = rapid.IntRange(1, 5).Draw(rt, "yields")
 	sc.ViaAny = rapid.IntRange(0, 4).Draw(rt, "viaAny") == 4
+	sc.ReuseCtx = rapid.IntRange(0, 2).Draw(rt, "reuseCtx") == 2
 	if rapid.IntRange(0, 2).Draw(rt, "neighbours") == 2 {
 		sc.OnceBefore = rapid.IntRange(0, 2).Draw(rt, "onceBefore")
 		sc.SelfUnsub = rapid.Bool().Draw(rt, "selfUnsub")
@@ -135,6 +141,7 @@ func (sc *C07Scenario) Execute(t *testing.T) *core.Outcome {
 		}
 		calls := map[int]int{}
 		cancelFn := map[int]context.CancelFunc{}
+		var escaped context.Context
 		w.OnInvoke = func(ti, fn, uid int, ctx context.Context, id int) {
 			if uid >= 100 { // neighbours
 				w.Rec.Add("neighbour", uid, id, "")
@@ -151,6 +158,9 @@ func (sc *C07Scenario) Execute(t *testing.T) *core.Outcome {
 			}
 			ri := regOfFn[fn]
 			w.Rec.Add("enter", ri, id, "")
+			if sc.ReuseCtx && ctx != nil && escaped == nil && !sc.cancelled(id) {
+				escaped = ctx
+			}
 			inside[ri]++
 			if inside[ri] > 1 {
 				if sc.Regs[ri].Opts.Seq {
@@ -234,6 +244,9 @@ func (sc *C07Scenario) Execute(t *testing.T) *core.Outcome {
 				for _, id := range l {
 					w.Rec.Add("pub-call", id, 0, "")
 					ctx := context.Background()
+					if sc.ReuseCtx && escaped != nil && id%2 == 1 && !sc.cancelled(id) {
+						ctx = escaped
+					}
 					if sc.cancelled(id) {
 						c, cancel := context.WithCancel(ctx)
 						ctx, cancelFn[id] = c, cancel
